@@ -180,11 +180,11 @@ fn fix_multi(log: Vec<Ev>, multis: &[(u32, Vec<u32>)]) -> Vec<Ev> {
             if let Ev::CtlIn(t, _, _) = &log[i] {
                 if t == tag {
                     // a panic injected into the controller itself: the window ends with the unwinding
-                    if let Some(Ev::P(pt)) = log.get(i + 1) { if pt == tag { log.insert(i + 2, Ev::CtlOut(*tag)); i += 3; continue; } }
                     let mut last = i;
                     let mut j = i + 1;
                     while j < log.len() {
                         if let Ev::CtlIn(t2, _, _) = &log[j] { if t2 == tag { break; } }
+                        if let Ev::P(pt) = &log[j] { if pt == tag { last = j; break; } }
                         if let Some(et) = ev_tag(&log[j]) { if sub.contains(&et) { last = j; } }
                         j += 1;
                     }
